@@ -315,28 +315,40 @@ def run_pathline(job):
     segs = []
     umax = 0.0
     strain_total = 0.0
+    # the integrated field is discontinuous at the box boundary (zero outside): the solver step in which the
+    # path leaves the box has no ODE to satisfy, so the residual is judged up to the start of that step
+    sol_ts = np.sort(np.asarray(getattr(pos, "ts", [t0, 0.0]), dtype=float))
+    t_exit_step = float(sol_ts[1]) if len(sol_ts) > 2 else t0
+    info["ode_rule_A"] = 0.0
     for k in range(NSEG):
         ta, tb = t0 + T * k / NSEG, t0 + T * (k + 1) / NSEG
-        out, dres, dstrain = 0.0, 0.0, 0.0
+        out, dres, dstrain, dresA = 0.0, 0.0, 0.0, 0.0
         if T > 0:
             tt = np.linspace(ta, tb, SUB + 1)
             for i in range(SUB):
                 xm = np.asarray(pos(0.5 * (tt[i] + tt[i + 1])), dtype=float)
-                out = max(out, float(np.maximum(lo - xm, xm - hi).max()) / ext)
-                dstrain += float(utils.strain_increment(float(tt[i + 1] - tt[i]), np.asarray(L(np.nan, np.clip(xm, lo, hi)), dtype=float)))
+                exc_m = float(np.maximum(lo - xm, xm - hi).max())
+                out = max(out, exc_m / ext)
+                if exc_m <= 0:  # strain accumulates along the part of the path that is inside the box
+                    dstrain += float(utils.strain_increment(float(tt[i + 1] - tt[i]), np.asarray(L(np.nan, xm), dtype=float)))
             inseg = (ts >= ta) & (ts <= tb)
             if inseg.any():
                 out = max(out, float(exc_s[inseg].max()))
             for t in np.linspace(max(ta, a_lo), min(tb, a_hi), NODE):
-                x = np.asarray(pos(t), dtype=float)
-                if np.any(x < lo) or np.any(x > hi):
+                st = [np.asarray(pos(t + dh), dtype=float) for dh in (-h, 0.0, h)]
+                if any(np.any(x < lo) or np.any(x > hi) for x in st):
                     continue  # outside the box the integrated field is zero by construction; judged by inside-box
-                d = (np.asarray(pos(t + h)) - np.asarray(pos(t - h))) / (2 * h)
-                uu = np.asarray(u(np.nan, x), dtype=float)
+                d = (st[2] - st[0]) / (2 * h)
+                uu = np.asarray(u(np.nan, st[1]), dtype=float)
                 umax = max(umax, float(np.abs(uu).max()))
-                dres = max(dres, float(np.abs(d - uu).max()))
+                r = float(np.abs(d - uu).max())
+                dresA = max(dresA, r)
+                if t - h >= t_exit_step:
+                    dres = max(dres, r)
         strain_total += dstrain
+        info["ode_rule_A"] = max(info["ode_rule_A"], dresA)
         segs.append([out, dres, dstrain])
+    info["ode_rule_A"] = info["ode_rule_A"] / umax if umax > 0 else 0.0
     for k, (out, dres, dstrain) in enumerate(segs, start=1):
         ode = dres / umax if umax > 0 else (0.0 if dres == 0 else math.inf)
         ev.append(dict(tid=tid, ev="Seg", k=k, ode_e6=cap(ode * 1e6), out_e6=cap(max(out, 0.0) * 1e6), dStrain_e6=cap(dstrain * 1e6, 200_000_000)))
